@@ -92,3 +92,50 @@ package layer
 //@   callbackinv "ForeachChild" : forall k string :: k in whiteouts ==> hasPrefix(k, whiteoutPrefix)
 //@   loop 0 invariant[C07] forall k string :: k in whiteouts ==> hasPrefix(k, whiteoutPrefix)
 //@   loop 0 step[C07] len(ents) == prev(len(ents)) || (len(ents) == prev(len(ents)) + 1 && ents[len(ents)-1].Name == w[len(whiteoutPrefix):] && ents[len(ents)-1].Mode == 8192)
+
+// ---- C15: prefetch range selection; the prefetch waiter is released on every path; waiting is bounded ----
+// cacheReqs / cacheReqSize: number of Blob.Cache requests issued and the size of the last one (offset is always 0 here).
+// The metadata reader's answers are functions of (reader, arguments): two lookups of the same name agree.
+//@ ghost cacheReqs int
+//@ ghost cacheReqSize int
+//@ uf childErr(ref, int, string) bool
+//@ uf childID(ref, int, string) int
+//@ uf offsetErr(ref, int) bool
+//@ uf offsetOf(ref, int) int
+//@ uf rootOf(ref) int
+//@ uf blobSize(ref) int
+//@ func interface metadata.Reader.GetChild
+//@   ensures (result2 != nil) == childErr(payload(self), a0, a1) && result0 == childID(payload(self), a0, a1)
+//@   params a0, a1
+//@ func interface metadata.Reader.GetOffset
+//@   ensures (result1 != nil) == offsetErr(payload(self), a0) && result0 == offsetOf(payload(self), a0)
+//@   params a0
+//@ func interface metadata.Reader.RootID
+//@   ensures result == rootOf(payload(self))
+//@ func interface fs/remote.Blob.Size
+//@   ensures result == blobSize(payload(self))
+//@ func interface fs/remote.Blob.Cache
+//@   modifies cacheReqs, cacheReqSize
+//@   ensures cacheReqs == old(cacheReqs) + 1 && cacheReqSize == a1
+//@   params a0, a1, a2
+// the waiter: doneCh is closed exactly when doneOnce has fired
+//@ func (w *waiter) done
+//@   props C15
+//@   requires w.doneCh != nil && (once(w.doneOnce) <==> closed(w.doneCh))
+//@   ensures[C15] closed(w.doneCh) && once(w.doneOnce)
+//@ func (w *waiter) wait
+//@   props C15
+//@   requires w.doneCh != nil && (once(w.doneOnce) <==> closed(w.doneCh))
+//@   ensures[C15] result != nil ==> closed(w.doneCh)
+//@ pure mdOf(l *layer) ref = payload(l.verifiableReader.r.r)
+//@ pure hasNoPrefetchLM(l *layer) bool = !childErr(mdOf(l), rootOf(mdOf(l)), estargz.NoPrefetchLandmark)
+//@ pure hasPrefetchLM(l *layer) bool = !childErr(mdOf(l), rootOf(mdOf(l)), estargz.PrefetchLandmark)
+//@ func (l *layer) prefetch
+//@   props C15
+//@   requires l.prefetchWaiter != nil && l.prefetchWaiter.doneCh != nil && (once(l.prefetchWaiter.doneOnce) <==> closed(l.prefetchWaiter.doneCh))
+//@   requires l.verifiableReader != nil && l.verifiableReader.r != nil && l.blob != nil && l.blob.Blob != nil && l.resolver != nil
+//@   ensures[C15] closed(l.prefetchWaiter.doneCh)
+//@   ensures[C15] old(hasNoPrefetchLM(l)) ==> cacheReqs == old(cacheReqs)
+//@   ensures[C15] result == nil && !old(hasNoPrefetchLM(l)) ==> cacheReqs == old(cacheReqs) + 1
+//@   ensures[C15] result == nil && !old(hasNoPrefetchLM(l)) && old(hasPrefetchLM(l)) ==> cacheReqSize == old(offsetOf(mdOf(l), childID(mdOf(l), rootOf(mdOf(l)), estargz.PrefetchLandmark)))
+//@   ensures[C15] result == nil && !old(hasNoPrefetchLM(l)) && !old(hasPrefetchLM(l)) ==> cacheReqSize == min(prefetchSize, old(blobSize(payload(l.blob.Blob))))
